@@ -391,6 +391,10 @@ func oracleFor(op *Sexp, res string) []string {
 		if res != want {
 			bad("target after Unmarshal breaks the merge rules: got %s want %s", res, want)
 		}
+	case "ptrkeys":
+		if res != "ok" {
+			bad("maps with pointer keys decoded on one instance: %s", res)
+		}
 	case "internmany":
 		if res != "ok wrong=0" {
 			bad("decoding many distinct values through one interned field: %s", res)
